@@ -676,6 +676,26 @@ package graphql
 //@ func PlanQuery
 //@   trusted
 //@   assigns nothing
+// Literal extraction (C06: the normalised document with its synthetic variables answers like the
+// original): a literal is replaced only when it holds no variable and coerces for the expected type; the
+// replacement is declared with exactly the expected type (wrappers included), carries the literal's own
+// client-side value, and an earlier variable is reused only for the same literal at the same expected type
+// (the reuse key is built from the expected type itself, not from its named type).
+//@ func normCtx.tryExtract
+//@   props C06
+//@   nosafety
+//@   requires c != nil
+//@   ensures !result1 ==> result0 == value
+//@   ensures isnil(value) || typeis(value, "*ast.Variable") || valueHasVariables_0(value) || isnil(expected) ==> !result1
+//@   ensures result1 ==> typeis(result0, "*ast.Variable") && calls("valueFromAST") == 1 && !isnil(lastresult("valueFromAST"))
+//@   at call valueFromAST: assert arg0 == value && arg1 == expected && arg2 == nil
+//@   at call Sprintf: assert len(arg1) == 2 && arg1[0] == expected && calls("Print") == 1 && arg1[1] == lastresult("Print")
+//@   at call Print: assert arg0 == value
+//@   at call typeASTFromGoType: assert arg0 == expected
+//@   at call variableValueFromLiteral: assert arg0 == value
+//@   ensures result1 && calls("nextName") == 1 ==> calls("typeASTFromGoType") == 1 && calls("variableValueFromLiteral") == 1 && has(c.synthArgs, lastresult("nextName")) && c.synthArgs[lastresult("nextName")] == lastresult("variableValueFromLiteral")
+//@   ensures result1 && calls("nextName") == 1 ==> len(c.newVarDefs) == old(len(c.newVarDefs)) + 1
+//@   ensures result1 && calls("nextName") == 0 ==> len(c.newVarDefs) == old(len(c.newVarDefs))
 //@ func normalizeDocument
 //@   trusted
 //@   assigns nothing
